@@ -25,15 +25,6 @@ theorem unpack48_refuses (b : Bytes) (h : b.length ≠ 6) : unpack48 b = .error 
 
 /-! ### Ethernet, every (vlan × fcs) nesting -/
 
-theorem ethFrame_eq_spec (s : Eth) (fcs : Bool) :
-    ethFrame s fcs = Spec.Ethernet.encode s.dstmac s.srcmac (if s.vlan then some s.vlantag else none) s.type s.payload fcs := by
-  have hb : ethHdr s ++ s.payload =
-      Spec.Ethernet.body s.dstmac s.srcmac (if s.vlan then some s.vlantag else none) s.type s.payload := by
-    cases hv : s.vlan <;> simp [ethHdr, ethTypePart, Spec.Ethernet.body, hv, encInt, ETH_TYPE_VLAN]
-  cases fcs
-  · simp [ethFrame, ethFcs, Spec.Ethernet.encode, ← hb]
-  · simp [ethFrame, ethFcs, Spec.Ethernet.encode, ← hb]
-
 /-- `Ethernet.pack(fcs)` emits dst, src, [0x8100, tag], type, payload, [FCS = little-endian CRC-32 of everything
     before it] — for VLAN on/off and FCS on/off -/
 theorem Ethernet_pack_layout (s : Eth) (fcs : Bool) (h : Eth_WF s) :
@@ -68,19 +59,6 @@ example : (Eth.unpack Eth.fresh
      | .ok b => b | .error _ => []) false).1.vlan = true := by decide
 
 /-! ### IPv4 -/
-
-theorem be2_split (n : Nat) : beBytes 2 n = beBytes 1 (n / 256) ++ beBytes 1 (n % 256) := by
-  simpa using beBytes_add 1 1 n
-
-theorem ipHeader_eq_spec (s : IP) (src dst c : Nat) (h : IP_WF s src dst) :
-    ipHeader s (beBytes 2 c) src dst =
-      Spec.IPv4.header s.dscp (20 + s.payload.length) s.ident s.flags (s.fragment_offset / 8) s.ttl s.protocol c src dst := by
-  obtain ⟨hs, hd, h1, h2, h3, h4, h5, h6, h7, h8, h9, h10⟩ := h
-  have e1 : (s.flags * 8192 + s.fragment_offset / 8) / 256 = s.flags * 32 + s.fragment_offset / 8 / 256 := by omega
-  have e2 : (s.flags * 8192 + s.fragment_offset / 8) % 256 = s.fragment_offset / 8 % 256 := by omega
-  simp only [ipHeader, ipFront, ipBack, Spec.IPv4.header, encInt, if_true, be2_split (s.flags * 8192 + s.fragment_offset / 8), e1, e2]
-  have : beBytes 1 69 = [0x45] := by decide
-  simp [this]
 
 /-- `IP.pack` emits the RFC 791 option-less header — version/IHL 0x45, total length 20+|payload|, flags in the top
     three bits of byte 6, fragment offset / 8 in the remaining 13 bits, RFC 1071 header checksum — and the payload -/
